@@ -729,6 +729,47 @@ def mpz_negabs (isAbs : Bool) (w u : Nat) (s : St) : R St := do
 def mpz_neg := mpz_negabs false
 def mpz_abs := mpz_negabs true
 
+/-! ## mpz_gcd -/
+
+/-- gcd.c:46-50 (and :57-61): `SIZ (g) = wsize; if (g == w) return; MPZ_REALLOC (g, wsize); MPN_COPY (PTR (g), wp, wsize);`
+    with `wp`, `wsize` fetched at the top of the function -/
+def gcdCopy (g w wp wsize : Nat) (s : St) : R St := do
+  let s := s.setSize g wsize
+  if g = w then pure s
+  else do
+    let s := s.mpzRealloc g wsize
+    let l ← s.load wp wsize
+    s.store (s.ptr g) l
+
+/-- gcd.c:66-68 (and :73-75): `SIZ (g) = 1; PTR (g)[0] = mpn_gcd_1 (wp, wsize, xp[0]);` -/
+def gcdOne (g wp wsize xp : Nat) (s : St) : R St := do
+  let s := s.setSize g 1
+  let b ← s.load wp wsize
+  let x ← limbAt s xp 0
+  s.storeAt (s.ptr g) 0 [Nat.gcd (val b) x]
+
+/-- mpz_gcd (g, u, v): mpz/gcd.c:39-161.  `up`, `vp` and the sizes are fetched at the top (:39-42); the zero-operand
+    cases write SIZ (g) first and copy afterwards (:46-50, :56-60); the one-limb cases store SIZ (g) = 1 and then
+    `PTR (g)[0] = mpn_gcd_1 (vp, vsize, up[0])` (:64-76); in the general case both operands are shifted into TMP space
+    (:81-111, through the early pointers — nothing has been reallocated yet), mpn_gcd works there, and g is
+    reallocated to exactly the size of the result (:141-158).  mpn_gcd_1 / mpn_gcd are taken at their value (`Nat.gcd`,
+    limb-level proofs: C07). -/
+def mpz_gcd (g u v : Nat) (s : St) : R St := do
+  let up := s.ptr u                                           -- gcd.c:39
+  let usize := (s.size u).natAbs                              -- :40
+  let vp := s.ptr v                                           -- :41
+  let vsize := (s.size v).natAbs                              -- :42
+  if usize = 0 then gcdCopy g v vp vsize s                    -- :44-52
+  else if vsize = 0 then gcdCopy g u up usize s               -- :55-63
+  else if usize = 1 then gcdOne g vp vsize up s               -- :64-69
+  else if vsize = 1 then gcdOne g up usize vp s               -- :71-76
+  else do
+    let a ← s.load up usize                                   -- :81-95
+    let b ← s.load vp vsize                                   -- :97-111
+    let G := Nat.gcd (val a) (val b)                          -- :130-132
+    let s := s.mpzRealloc g (sizeNat G)                       -- :144 / :154
+    s.setInt g G                                              -- :145-158
+
 /-! ## mpz_sqrtrem -/
 
 /-- mpn_sqrtrem (sp, rp, np, nn): mpn/generic/sqrtrem.c:298-301 `np[nn-1] != 0`, `MPN_SAME_OR_SEPARATE_P (np, rp, nn)`,
